@@ -78,17 +78,27 @@ def build(net, cfg):
         return a if isinstance(a, int) else (int(a) if a.lstrip("-").isdigit() else a)
     tbl = {key(a): b for a, b in t.items()} if isinstance(t, dict) else list(t)
     if k == "SP":
-        s = SP(env, rate, tbl, flow2class=f2c)
+        if cfg.get("reused_table"):
+            # the same dict object served an earlier experiment with other priorities and was edited in place since
+            real = dict(tbl)
+            vals = list(real.values())
+            for i, f in enumerate(list(tbl)):
+                tbl[f] = vals[(i + 1) % len(vals)] + (i % 2)
+            SP(type(env)(), rate, tbl, flow2class=f2c)
+            for f in real:
+                tbl[f] = real[f]
+        s = SP(env, rate, tbl, flow2class=f2c, debug=bool(cfg.get("debug")))
     elif k == "WFQ":
-        s = WFQ(env, rate, tbl, flow2class=f2c)
+        s = WFQ(env, rate, tbl, flow2class=f2c, debug=bool(cfg.get("debug")))
     elif k == "VC":
-        s = VC(env, rate, tbl, flow2class=f2c)
+        s = VC(env, rate, tbl, flow2class=f2c, debug=bool(cfg.get("debug")))
     elif k == "DRR":
-        s = DRR(env, rate, tbl, flow2class=f2c)
+        s = DRR(env, rate, tbl, flow2class=f2c, debug=bool(cfg.get("debug")))
     elif k == "RR":
-        s = RR(env, rate, tbl)
+        # (the round may be declared by any sequence: a tuple keeps its declaration order like a list)
+        s = RR(env, rate, tuple(tbl) if cfg.get("table_as_tuple") else tbl, debug=bool(cfg.get("debug")))
     else:
-        s = WRR(env, rate, tbl)
+        s = WRR(env, rate, tbl, debug=bool(cfg.get("debug")))
     return s, f2c, tbl
 
 
@@ -174,6 +184,13 @@ class Run:
             env.process(drain())
         if counters:
             env.post_hooks.append(lambda e: self.check_counters("step"))
+        elif case.get("poll"):
+            # an observer that merely reads the public per-flow counters of every configured flow after every step
+            def poll(e):
+                for f in cfg["flows"]:
+                    sched.size(f)
+                    sched.byte_size(f)
+            env.post_hooks.append(poll)
         # a second, independent scheduler of the same kind and tables lives in the same environment (the ports of
         # one switch): state that is accidentally shared between instances shows up in the primary one
         self.twin = None
@@ -181,6 +198,39 @@ class Run:
             self.twin, _, _ = build(net, cfg)
             self.twin.out = net.recorder("twin-sink")
             net.drivers(self.twin, case["twin"])
+        # the packets that leave go on into a second scheduler with another rate (the same Packet objects cross both)
+        self.ds_tx = []
+        self.ds_rate = None
+        if case.get("downstream"):
+            ds_cfg = dict(cfg, kind=case["downstream"]["kind"], rate=case["downstream"]["rate"])
+            if ds_cfg["kind"] in ("RR",):
+                ds_cfg["table"] = list(cfg["flows"])
+            elif ds_cfg["kind"] in ("SP", "WRR"):
+                ds_cfg["table"] = {f: 1 + (i % 3) for i, f in enumerate(cfg["flows"])}
+            else:
+                ds_cfg["table"] = {c: 1 + (i % 2) for i, c in enumerate(cfg["classes"])}
+            ds, _, _ = build(net, ds_cfg)
+            self.ds_rate = ds_cfg["rate"]
+            ds_send = ds.send_packet
+            started = {}
+
+            def ds_send_packet(p):
+                started[id(p)] = env.now
+                return ds_send(p)
+
+            class DsOut:
+                def put(_, p):
+                    self.ds_tx.append((started.pop(id(p), None), env.now, p.size))
+            ds.send_packet = ds_send_packet
+            ds.out = DsOut()
+            fwd = self.sink.put
+
+            def forward(p):
+                fwd(p)
+                ds.put(p)
+            self.sink.put = forward
+            if case.get("out_store"):
+                pass
         self.mon = None
         if monitor:
             from onl.scheduler import Monitor
@@ -240,6 +290,16 @@ def count_features(ctx, run):
         ctx.count("tiny_weight_cases")
     if case.get("twin"):
         ctx.count("twin_scheduler_cases")
+    if case.get("poll"):
+        ctx.count("counter_polling_observer_cases")
+    if case["cfg"].get("reused_table"):
+        ctx.count("priority_table_object_reused_cases")
+    if case.get("downstream"):
+        ctx.count("second_scheduler_downstream_cases")
+    if case["cfg"].get("debug"):
+        ctx.count("debug_tracing_cases")
+    if case["cfg"].get("table_as_tuple"):
+        ctx.count("rr_table_as_tuple_cases")
 
 
 def gen_case(rng, kind, flavour=None, n=None, static=False, cmap=None, nflows=None, sizes=None):
@@ -276,8 +336,18 @@ def gen_case(rng, kind, flavour=None, n=None, static=False, cmap=None, nflows=No
             if rng.random() < 0.3:
                 a["late"] = rng.choice([1, 1, 2, 3, 5])      # arrives later inside its instant (after the decisions taken at it)
     case = {"cfg": cfg, "flavour": flavour, "arrivals": arr, "static": static}
+    if kind == "SP" and rng.random() < 0.2:
+        cfg["reused_table"] = True
+    if rng.random() < 0.15:
+        cfg["debug"] = True             # tracing switched on changes nothing (its output is captured)
+    if kind == "RR" and rng.random() < 0.3:
+        cfg["table_as_tuple"] = True
+    if rng.random() < 0.3:
+        case["poll"] = True
     if rng.random() < 0.15:
         case["out_store"] = True
+    elif rng.random() < 0.15:
+        case["downstream"] = {"kind": rng.choice(KINDS), "rate": cfg["rate"] * rng.choice([0.25, 0.5, 2, 4])}
     if rng.random() < 0.2:
         case["echo"] = {str(k): True for k in range(3 * len(arr)) if rng.random() < 0.35}
     if rng.random() < 0.3:
